@@ -103,6 +103,13 @@ Theorem C20_client_request_served_as_itself : forall i stor cl k own (l : list o
 Proof. exact client_request_result. Qed.
 Print Assumptions C20_client_request_served_as_itself.
 
+(* ... and the ANSWER to a request of any class - every validation error of every endpoint included - is its own:
+   after any history of requests on any providers it is the answer the request gets alone *)
+Theorem C20_answer_is_the_requests_own : forall i stor q r (l : list op) (h : heap),
+  Forall (fun o => is_prov_request o = true) l -> result (ProvAns i stor q r) (run_ops l h) = [S r].
+Proof. exact answer_result. Qed.
+Print Assumptions C20_answer_is_the_requests_own.
+
 (* Package-level helpers (hash selection + HashString, ClaimHash, AES helpers, code challenge) are pure: a call
    makes no access to any shared location - so it cannot race with anything (C20_drf) - and yields the same
    value after ANY history of operations of any instances. *)
